@@ -409,6 +409,30 @@ def run_case(case):
                     problems.append({'kind': 'monitor', 'sub': 'received',
                                      'what': '%s.%s(tol=%r, deep=%r): the function received %r %r, the caller passed %r %r' % (
                                          mod.__name__, name, tol, deep, got['a'], got['k'], args, kwds)})
+        # ---- klepto.keygen: calling it returns the key, .key() the key of the most recent call, .call() evaluates
+        try:
+            kmap = km.stringmap(flat=False)
+            kg = klepto.keygen(keymap=kmap, tol=tol, deep=deep)(stub)
+            ka = kg(*args, **kwds)
+            kb = kg.key()
+            if ka != kb and not has_nan:
+                problems.append({'kind': 'monitor', 'sub': 'keygen',
+                                 'what': 'klepto.keygen(tol=%r, deep=%r): the call returned key %r but .key() of the same call is %r' % (tol, deep, ka, kb)})
+            try:
+                k0 = klepto.keygen(keymap=km.stringmap(flat=False))(stub)(*[rebuild(m, a) for m, a in zip(margs, args)], **{n: rebuild(mkw[n], kwds[n]) for n in mkw})
+            except Exception:
+                k0 = None
+            if k0 is not None and not has_nan and ka != k0 and not _has_set((args, kwds)):
+                problems.append({'kind': 'corr', 'sub': 'key',
+                                 'what': 'klepto.keygen(tol=%r, deep=%r): key(%r, %r) = %r but key of the oracle-rounded arguments = %r' % (tol, deep, args, kwds, ka, k0)})
+            got.clear()
+            kg.call()
+            if 'a' in got and (len(got['a']) != len(args) or any(x is not y for x, y in zip(got['a'], args)) or
+                               set(got['k']) != set(kwds) or any(got['k'][n] is not kwds[n] for n in kwds)):
+                problems.append({'kind': 'monitor', 'sub': 'received',
+                                 'what': 'klepto.keygen(tol=%r, deep=%r).call(): the function received %r %r, the caller passed %r %r' % (tol, deep, got['a'], got['k'], args, kwds)})
+        except Exception as e:
+            problems.append({'kind': 'monitor', 'sub': 'raises', 'what': 'klepto.keygen(tol=%r, deep=%r) raised %s: %s on %r %r' % (tol, deep, type(e).__name__, e, args, kwds)})
     return problems
 
 
